@@ -4,11 +4,16 @@
 package c08
 
 import (
-	"strings"
 	"bytes"
+	"crypto/rand"
+	stdx509 "crypto/x509"
+	"crypto/x509/pkix"
 	"fmt"
 	"math/big"
+	"net"
+	"strings"
 	"testing"
+	"time"
 
 	"github.com/tjfoc/gmsm/gmtls"
 	"pgregory.net/rapid"
@@ -26,7 +31,7 @@ var R = hx.NewRecorder("C08", "cases = attacker catalogue x GMSSL suite x client
 func TestMain(m *testing.M) {
 	for _, k := range []string{"sign_cert_wrong_key", "enc_cert_wrong_key", "untrusted", "expired", "future", "wrongname", "enc_expired", "rsa_sign_cert", "rsa_enc_cert", "swapped", "client_wrong_key", "client_untrusted", "client_expired",
 		"ske_omitted", "ske_other_key", "ske_other_randoms", "ske_other_enccert", "ske_garbage", "cv_omitted", "cv_other_key", "cv_replayed", "cv_chain_confusion", "ske_sig_not_der", "cv_sig_not_der", "finished_wrong",
-		"mitm_byte", "mitm_suites", "mitm_ske_replay", "mitm_cke_replay", "mitm_cert_swap", "mitm_cert_attacker", "baseline"} {
+		"mitm_byte", "mitm_suites", "mitm_ske_replay", "mitm_cke_replay", "mitm_cert_swap", "mitm_cert_attacker", "baseline", "tls_server_name", "enc_cert_twice", "sign_cert_twice"} {
 		R.Require("attack:" + k)
 	}
 	R.Require("suite:e013", "suite:e053", "skipverify")
@@ -44,7 +49,7 @@ func wrongKey(id *tlsx.Ident, other *tlsx.Ident) gmtls.Certificate {
 func TestC08_MisconfiguredPeers(t *testing.T) {
 	p := tlsx.GetPKI()
 	n := 0
-	serverAttacks := []string{"baseline", "sign_cert_wrong_key", "enc_cert_wrong_key", "untrusted", "expired", "future", "wrongname", "enc_expired", "rsa_sign_cert", "rsa_enc_cert", "swapped"}
+	serverAttacks := []string{"baseline", "sign_cert_wrong_key", "enc_cert_wrong_key", "untrusted", "expired", "future", "wrongname", "enc_expired", "rsa_sign_cert", "rsa_enc_cert", "swapped", "enc_cert_twice", "sign_cert_twice"}
 	clientAttacks := []string{"baseline", "client_wrong_key", "client_untrusted", "client_expired"}
 	hx.Check(t, hx.N(300, 4000), func(t *rapid.T) {
 		n++
@@ -87,6 +92,12 @@ func TestC08_MisconfiguredPeers(t *testing.T) {
 				enc = p.RSASrv.TLS
 			case "swapped":
 				sign, enc = enc, sign
+			case "enc_cert_twice":
+				// the holder of the encryption key alone (the key that is escrowed in GM deployments) presents the genuine
+				// encryption certificate in both positions and signs with it: no proof of the SIGNING identity
+				sign = enc
+			case "sign_cert_twice":
+				enc = sign
 			}
 			sc.Certificates = []gmtls.Certificate{sign, enc}
 		} else {
@@ -525,3 +536,62 @@ func certMsg(certs ...[]byte) []byte {
 }
 
 var _ = big.NewInt
+
+// ---- the TLS-mode client (standard TLS path of the same package): requested names that are DNS names, IP literals and
+// bracketed IPv6 literals against certificates with DNS and IP subject alternative names
+
+func ipCert(p *tlsx.PKI, ips []net.IP, dns []string) gmtls.Certificate {
+	parent, err := stdx509.ParseCertificate(p.RSARoot.DER)
+	if err != nil {
+		panic(err)
+	}
+	pub := p.RSASrv.Key.Public()
+	tpl := &stdx509.Certificate{SerialNumber: big.NewInt(777001), Subject: pkix.Name{CommonName: "ip srv"}, NotBefore: tlsx.Now.Add(-time.Hour), NotAfter: tlsx.Now.Add(time.Hour),
+		KeyUsage: stdx509.KeyUsageDigitalSignature | stdx509.KeyUsageKeyEncipherment, ExtKeyUsage: []stdx509.ExtKeyUsage{stdx509.ExtKeyUsageServerAuth}, IPAddresses: ips, DNSNames: dns}
+	der, err := stdx509.CreateCertificate(rand.Reader, tpl, parent, pub, p.RSARoot.Key)
+	if err != nil {
+		panic(err)
+	}
+	return gmtls.Certificate{Certificate: [][]byte{der}, PrivateKey: p.RSASrv.Key}
+}
+
+func TestC08_TLSClientServerName(t *testing.T) {
+	p := tlsx.GetPKI()
+	withIP := ipCert(p, []net.IP{net.ParseIP("10.1.2.3"), net.ParseIP("::1")}, []string{"server.test"})
+	dnsOnly := p.RSASrv.TLS // DNS name server.test only
+	type tc struct {
+		name string
+		cert gmtls.Certificate
+		ok   bool
+	}
+	cases := []tc{
+		{"server.test", dnsOnly, true}, {"SERVER.test", dnsOnly, true}, {"other.test", dnsOnly, false},
+		{"10.1.2.3", dnsOnly, false}, {"127.0.0.1", dnsOnly, false}, {"[::1]", dnsOnly, false}, {"::1", dnsOnly, false},
+		{"10.1.2.3", withIP, true}, {"10.1.2.4", withIP, false}, {"[::1]", withIP, true}, {"::2", withIP, false}, {"server.test", withIP, true}, {"x.server.test", withIP, false},
+	}
+	n := 0
+	for _, c := range cases {
+		for _, vers := range []uint16{0x0301, 0x0303} {
+			n++
+			cc, sc := tlsx.TLSClient(p, fmt.Sprint("nc", n)), tlsx.TLSServer(p, p.RSASrv, fmt.Sprint("ns", n))
+			sc.Certificates = []gmtls.Certificate{c.cert}
+			cc.ServerName = c.name
+			cc.MaxVersion = vers
+			r := tlsx.Run(cc, sc, tlsx.Script{ClientSend: []byte("secret"), ServerSend: []byte("reply")})
+			desc := fmt.Sprintf("TLS client ServerName=%q version<=%x, certificate %v: %s", c.name, vers, map[bool]string{true: "valid for that name", false: "NOT valid for that name"}[c.ok], r.Describe())
+			if r.Client.Panic != nil || r.Server.Panic != nil {
+				t.Fatalf("panic\n%s", desc)
+			}
+			if c.ok && (r.Client.HSErr != nil || r.Server.HSErr != nil) {
+				t.Fatalf("honest server with a certificate valid for the requested name was refused\n%s", desc)
+			}
+			if !c.ok && r.Client.HSErr == nil {
+				t.Fatalf("the client COMPLETED a handshake with a server whose certificate is not valid for the requested name\n%s", desc)
+			}
+			if !c.ok && len(r.Server.Received) > 0 {
+				t.Fatalf("client data reached a server it must not accept\n%s", desc)
+			}
+			R.Case(true, hx.HashKey("name", c.name, vers, c.ok), "attack:tls_server_name", map[bool]string{true: "name_ok", false: "name_mismatch"}[c.ok])
+		}
+	}
+}
